@@ -363,6 +363,50 @@ fn random_history(n: usize, len: usize, rng: &mut Rng) -> Vec<Op> {
     ops
 }
 
+/// A word shaped like a card - exactly one rank flag (bits 16..28) and one suit flag (bits 12..15) - whose
+/// other fields are only sometimes those of the real card: the rank nibble and prime in the low 12 bits may be
+/// another card's, slightly off or arbitrary, and the multiples flags may be set. Legal words all the same;
+/// a constructor or setter that "re-keys", normalises or validates what looks like a card changes them.
+fn shaped_word(rng: &mut Rng) -> u32 {
+    const PRIMES: [u32; 13] = [2, 3, 5, 7, 11, 13, 17, 19, 23, 29, 31, 37, 41];
+    let r = rng.below(13) as u32;
+    let canonical = (r << 8) | PRIMES[r as usize];
+    let low = match rng.below(6) {
+        0 | 1 => canonical,
+        2 => canonical ^ (1 << rng.below(12)),
+        3 => {
+            let o = rng.below(13) as u32;
+            (o << 8) | PRIMES[o as usize]
+        }
+        4 => 0,
+        _ => rng.u32() & 0xFFF,
+    };
+    let flags = if rng.chance(1, 4) { (1 + rng.below(7) as u32) << 29 } else { 0 };
+    flags | (1 << (16 + r)) | (0x1000 << rng.below(4)) | low
+}
+
+/// History in which every word is card-shaped (see `shaped_word`), so that every container the constructors
+/// and setters see looks like a hand of cards in all its slots at once.
+fn shaped_history(n: usize, len: usize, rng: &mut Rng) -> Vec<Op> {
+    let mut ops = Vec::with_capacity(len);
+    let w: Vec<u32> = (0..n).map(|_| shaped_word(rng)).collect();
+    ops.push(Op::New(rng.below(ctor_forms(n) as u64) as usize, w));
+    for _ in 1..len {
+        let r = rng.below(20);
+        ops.push(if r < 10 {
+            Op::Set(rng.below(n as u64) as usize, shaped_word(rng))
+        } else if r < 13 {
+            Op::Rebuild(rng.below(ctor_forms(n) as u64) as usize)
+        } else if r < 15 {
+            Op::CopyAndScribble(rng.below(n as u64) as usize, shaped_word(rng))
+        } else {
+            let w: Vec<u32> = (0..n).map(|_| shaped_word(rng)).collect();
+            Op::New(rng.below(ctor_forms(n) as u64) as usize, w)
+        });
+    }
+    ops
+}
+
 /// five-slot selection: slot k of the result is slot p[k] of the container, for every in-range tuple
 fn check_selection(st: &mut St<X>, n: usize, rng: &mut Rng) {
     let mut counter = 7u32;
@@ -559,9 +603,18 @@ pub fn run(ctx: &Ctx) -> Rep {
             let mut w: Vec<u32> = cards.iter().map(|&i| crate::model::word(i)).collect();
             // arrangements: as generated, shuffled, and shuffled with seeded multiples flags (bits 29-31) on
             // some cards - legal words that look like cards to anything that masks the flags off
-            for arrangement in 0..3 {
+            for arrangement in 0..5 {
                 if arrangement >= 1 {
                     rng.shuffle(&mut w);
+                }
+                if arrangement >= 3 {
+                    // card-shaped words whose low 12 bits are not the card's: in some slots (3) / in all (4)
+                    for x in w.iter_mut() {
+                        *x &= 0x1FFF_FFFF;
+                        if arrangement == 4 || rng.chance(1, 2) {
+                            *x = (*x & 0xFFFF_F000) | (shaped_word(&mut rng) & 0xFFF);
+                        }
+                    }
                 }
                 if arrangement == 2 {
                     for x in w.iter_mut() {
@@ -571,7 +624,7 @@ pub fn run(ctx: &Ctx) -> Rep {
                     }
                 }
                 for n in [6usize, 7] {
-                    if ctx.smoke() && (n == 7 || arrangement == 1) {
+                    if ctx.smoke() && (n == 7 || arrangement == 1 || arrangement == 3) {
                         continue;
                     }
                     let h = &w[..n];
@@ -590,7 +643,8 @@ pub fn run(ctx: &Ctx) -> Rep {
                         }
                     }
                     // every in-range index tuple
-                    let total = (n as u64).pow(5);
+                    // (the card-shaped arrangements go through the constructors only)
+                    let total = if arrangement >= 3 { 0 } else { (n as u64).pow(5) };
                     for mut code in 0..total {
                         let mut p = [0u8; 5];
                         for k in 0..5 {
@@ -636,9 +690,15 @@ pub fn run(ctx: &Ctx) -> Rep {
         for it in 0..(n_hist / chunks) {
             let n = 2 + (it % 6);
             // alternate: unique words (unambiguous localisation) / a small pool (repeated words)
-            let ops = if (it / 6) % 2 == 0 { random_history(n, 40, &mut rng) } else { pooled_history(n, 40, &mut rng) };
-            if (it / 6) % 2 == 1 {
-                st.rep.add("histories_over_a_small_word_pool(repeated words)", 1);
+            let ops = match (it / 6) % 4 {
+                0 | 2 => random_history(n, 40, &mut rng),
+                1 => pooled_history(n, 40, &mut rng),
+                _ => shaped_history(n, 40, &mut rng),
+            };
+            match (it / 6) % 4 {
+                1 => st.rep.add("histories_over_a_small_word_pool(repeated words)", 1),
+                3 => st.rep.add("histories_over_card_shaped_words(one rank flag, one suit flag, other fields off)", 1),
+                _ => {}
             }
             run_history(st, n, &ops);
             st.rep.distinct += 1;
